@@ -7,6 +7,8 @@
 #include <ascon/aead-masked.h>
 #include <ascon/siv.h>
 #include <ascon/isap.h>
+#include <ascon/hash.h>
+#include <ascon/xof.h>
 #include <ascon/utility.h>
 
 template<class C> static int use_aead(C &c, const unsigned char *k, size_t klen)
